@@ -161,11 +161,11 @@ def _fmt(kind, w, x, y, z, c, rest):
     return "%s %s %d %d %d %d %s" % (kind, w, x, y, z, c, " ".join(map(str, rest)))
 
 
-def _cover_ops(rng, pre, w, x, y, z, c, limit, sizes, max_chunks=240):
+def _cover_ops(rng, pre, w, x, y, z, c, limit, sizes, max_chunks=240, beyond=False):
     """ops that cover [0, limit) (or a window of it): one row of 1-segment chunks and one chain of random segment counts"""
     ops = []
     size = rng.choice(sizes)
-    n = -(-limit // size) + rng.choice((0, 0, 1))            # sometimes one chunk beyond the limit (empty window)
+    n = -(-limit // size) + (rng.choice((0, 0, 1)) if beyond else 0)   # off-curve: sometimes one chunk beyond the limit
     t0 = 0
     if n > max_chunks:
         t0 = rng.randint(0, n - max_chunks)
@@ -191,7 +191,7 @@ def _ks_for_d(rng, x, y):
     for k in (4, 5, 6):
         if k <= _pi(xs):
             ks.add(k)
-    return sorted(k for k in ks if k >= 4 or k >= _pi(xs))
+    return sorted(k for k in ks if k >= 4)
 
 
 def exhaustive_ops(ctx):
@@ -214,7 +214,7 @@ def exhaustive_ops(ctx):
                 w = rng.choice(("64", "128"))
                 for size in sizes:
                     n = -(-z // size)
-                    for low_t in range(0, n + 1):
+                    for low_t in range(0, n):
                         for segs in range(1, n - low_t + 2):
                             if q and rng.random() < 0.5:
                                 continue
@@ -229,7 +229,7 @@ def exhaustive_ops(ctx):
                 xz = x // z
                 size = rng.choice(sizes)
                 n = -(-xz // size)
-                ops.append(_fmt("d_row", w, x, y, z, k, (0, size, n + 1)))
+                ops.append(_fmt("d_row", w, x, y, z, k, (0, size, n)))
                 ops.append(_fmt("d_chunk", w, x, y, z, k, (0, n, size)))
     # (b) medium x, small y: most chunks hold leaves
     hi = 2 * 10 ** 6 if q else 10 ** 8
@@ -244,7 +244,7 @@ def exhaustive_ops(ctx):
             ops += _cover_ops(rng, "s2hard", w, x, y, z, c, z, sizes)
         gy, gz = gen.gourdon_yz(rng, x, 0.3)
         if 1 <= gy <= gz <= x and gen.isqrt(gz) <= gy:
-            for k in rng.sample(_ks_for_d(rng, x, gy), 1):
+            for k in rng.sample(_ks_for_d(rng, x, gy), 1) if _ks_for_d(rng, x, gy) else []:
                 ops += _cover_ops(rng, "d", w, x, gy, gz, k, x // gz, sizes)
     # (c) the phi evaluator of the model side against primecount::phi
     for _ in range(60 if q else 600):
@@ -334,11 +334,11 @@ def boundary_ops(ctx):
         ops.append(_fmt("s2hard_chain", w, x, y, z, c, (size, lo, 1, 1)))
         ops.append(_fmt("s2hard_chunk", w, x, y, z, c, (lo, 2, size)))
         ops.append(_fmt("s2hard_chain", w, x, y, z, c, (240, max(B - 240, 0), 1, 1, 1)))
-        if rng.random() < 0.5:
+        if rng.random() < 0.5 and z <= 20000:
             ops.append(_fmt("s2hard_chunk", w, x, y, z, c, (0, -(-z // size), size)))       # low = 0, limit clipped by z
         else:
-            tz = z // size
-            ops.append(_fmt("s2hard_chain", w, x, y, z, c, (size, max(tz - 1, 0) * size, 1, 1, 1)))   # last chunks: clipped, empty
+            tz = (z - 1) // size                                                               # last chunks: limit clipped by z
+            ops.append(_fmt("s2hard_chain", w, x, y, z, c, [size, max(tz - 1, 0) * size] + [1] * (2 if tz >= 1 else 1)))
     # D: leaves (p, m) with m <= x / p^3 on a boundary of [0, x/z)
     nd = 0
     tries = 0
@@ -379,7 +379,8 @@ def boundary_ops(ctx):
         ops.append(_fmt("d_chain", w, x, y, z, k2, (size, lo, 1, 1)))
         ops.append(_fmt("d_chunk", w, x, y, z, k2, (lo, 2, size)))
         xz = x // z
-        ops.append(_fmt("d_chain", w, x, y, z, k2, (size, max(xz // size - 1, 0) * size, 1, 1, 1)))
+        tz = (xz - 1) // size
+        ops.append(_fmt("d_chain", w, x, y, z, k2, [size, max(tz - 1, 0) * size] + [1] * (2 if tz >= 1 else 1)))
         nd += 1
     return ops
 
@@ -401,16 +402,16 @@ def offcurve_ops(ctx):
         if z > 3 * 10 ** 5:
             continue
         c = max(4, rng.choice((gen.get_c(y), rng.randint(4, 9))))
-        ops += _cover_ops(rng, "s2hard", w, x, y, z, c, z, sizes, 120)
+        ops += _cover_ops(rng, "s2hard", w, x, y, z, c, z, sizes, 120, True)
         y = rng.randint(max(2, gen.iroot(4, x)), sq)
         z = rng.randint(y, min(max(y, 2 * sq), y * y, x))
         if z > 2 * 10 ** 5 or gen.isqrt(z) > y:
             continue
         xs = x_star(x, y)
-        k = rng.choice((4, 5, gen.get_k(x), 8))
-        if k < 4 and k < _pi(xs):
+        k = rng.choice((4, 5, gen.get_k(x), 8, _pi(xs)))
+        if k < 4 and (k < _pi(xs) or xs >= 11):
             continue
-        ops += _cover_ops(rng, "d", w, x, y, z, k, x // z, sizes, 120)
+        ops += _cover_ops(rng, "d", w, x, y, z, k, x // z, sizes, 120, True)
     return ops
 
 
@@ -425,7 +426,7 @@ def _run_inputs(rng, lo, hi, n):
             out.append(("s2hard", x, y, z, max(gen.get_c(y), 4)))
         gy, gz = gen.gourdon_yz(rng, x, 0.3)
         k = gen.get_k(x)
-        if gen.iroot(3, x) < gy <= gz < gen.isqrt(x) and (k >= 4 or k >= _pi(x_star(x, gy))):
+        if gen.iroot(3, x) < gy <= gz < gen.isqrt(x) and k >= 4:
             out.append(("d", x, gy, gz, k))
     return out
 
@@ -505,18 +506,41 @@ def _run_stream(name, ctx, inputs_small, inputs_big, combos_small, combos_big, e
                   env={"PCV_OP_TIMEOUT": "120"}, classify=classify)
 
 
+def _multi_worker_inputs(rng, n):
+    """sieve limits just above 2^21 / 3 * 2^20: the real region then runs a team of 2..4 workers (ideal_num_threads with
+    thread_threshold 2^20) while the model side can still replay every work item"""
+    out = []
+    for _ in range(n):
+        lim = rng.choice((rng.randint(2 ** 21, 2 ** 21 + 10 ** 5), rng.randint(3 * 2 ** 20, 3 * 2 ** 20 + 3 * 10 ** 5),
+                          rng.randint(4 * 2 ** 20, 4 * 2 ** 20 + 2 * 10 ** 5)))
+        # S2_hard: z = lim = x / y with x^(1/3) <= y
+        y = rng.randint(1300, 2600)
+        x = lim * y + rng.randint(0, y - 1)
+        if gen.iroot(3, x) <= y and x // y == lim:
+            out.append(("s2hard", x, y, lim, 8))
+        # D: x / z = lim, x^(1/3) < y <= z < sqrt(x)
+        z = rng.randint(lim // 40, lim // 15)
+        x = lim * z + rng.randint(0, z - 1)
+        x13 = gen.iroot(3, x)
+        if x13 + 1 <= z < gen.isqrt(x):
+            y = rng.randint(x13 + 1, z)
+            out.append(("d", x, y, z, gen.get_k(x)))
+    return out
+
+
 def samples_stream(ctx):
     rng = ctx.rng
     q = ctx.quick
     small = _run_inputs(rng, 10 ** 4, 2 * 10 ** 7, 10 if q else 80) + _run_inputs(rng, 2 * 10 ** 7, 10 ** 9, 4 if q else 40)
-    big = _run_inputs(rng, 10 ** 9, 10 ** 11 if q else 10 ** 13, 5 if q else 40)
+    big = _run_inputs(rng, 10 ** 9, 10 ** 11 if q else 10 ** 13, 8 if q else 40)
     return _run_stream("hardloops-samples", ctx, small, big, [(1, 0), (3, 1), (16, 0)], [(2, 0), (16, 1)] if q else
-                       [(1, 0), (2, 1), (5, 0), (16, 0)], True, 3 * 10 ** 5 if q else 2 * 10 ** 6)
+                       [(1, 0), (2, 1), (5, 0), (16, 0)], True, 45 * 10 ** 5 if q else 6 * 10 ** 6)
 
 
 def streams(ctx):
     return [_judged("hardloops-exhaustive", exhaustive_ops(ctx), True),
             _judged("hardloops-boundary", boundary_ops(ctx), True),
+            _judged("hardloops-offcurve", offcurve_ops(ctx), False, use_def=False),
             samples_stream(ctx)]
 
 
@@ -525,6 +549,7 @@ def c03_streams(ctx):
     q = ctx.quick
     small = _run_inputs(rng, 10 ** 5, 10 ** 9, 8 if q else 60)
     big = _run_inputs(rng, 10 ** 9, 10 ** 11 if q else 10 ** 13, 3 if q else 30)
+    big += _multi_worker_inputs(rng, 1 if q else 12)
     combos = [(1, 0), (1, 1), (2, 0), (3, 1), (8, 0), (16, 1)]
     return [_run_stream("hardloops-runs", ctx, small, big, combos, combos[1:4] if q else combos, False,
-                        3 * 10 ** 5 if q else 2 * 10 ** 6)]
+                        45 * 10 ** 5 if q else 6 * 10 ** 6)]
